@@ -43,6 +43,9 @@ def o_wf_tree(case, lines):
             return "ids not dense at %d" % i
     if nodes[0]["kind"] != "R" or nodes[0]["parent"] != -1:
         return "node 0 is not a parentless Root"
+    nk = sec(lines, "NK")
+    if nk and nk[0][1] != "0":
+        return "%s disagreements between is_root / is_element / is_pi / is_comment / is_text, NodeId conversions, text_storage / tail_storage, pi() and node_type() / id() / text() / tail()" % nk[0][1]
     children = [[] for _ in range(n)]
     for nd in nodes[1:]:
         p = nd["parent"]
@@ -149,6 +152,28 @@ def o_attr_pieces(case, lines):
     v = unhex(a[0][5]).decode("utf-8")
     if v != m["expect_attr"]:
         return "attribute value %r, expected %r" % (v, m["expect_attr"])
+    return None
+
+
+def o_misc_verbatim(case, lines):
+    """comment text and PI target / value are the exact source strings: each must occur verbatim between its delimiters"""
+    m = case.meta or {}
+    if not m.get("misc_verbatim"):
+        return None
+    if result_class(lines) != "ok":
+        return "well-formed document rejected: " + " ".join(lines[1:2])
+    n_c = 0
+    for r in sec(lines, "C"):
+        n_c += 1
+        if b"<!--" + unhex(r[2]) + b"-->" not in case.data:
+            return "comment text %r is not the source string between '<!--' and '-->'" % unhex(r[2])
+    for r in sec(lines, "K"):
+        n_c += 1
+        val = unhex(r[3]) if len(r) > 3 and r[3] != "-" else b""
+        if b"<?" + unhex(r[2]) + (b" " + val if val else b"") + b"?>" not in case.data:
+            return "PI target / value %r %r are not the source strings" % (unhex(r[2]), val)
+    if n_c == 0:
+        return "no comment or PI node found"
     return None
 
 
@@ -381,6 +406,10 @@ def o_navigation(case, lines):
                     exp.append(str(dq.pop()) if dq else "-1")
                 elif t == "L":
                     exp.append("%d/%d" % (len(dq), len(dq)))
+                elif t == "C":
+                    exp.append(str(len(dq)))
+                elif t == "T":
+                    exp.append(str(dq[-1]) if dq else "-1")
                 elif t[0] == "R":
                     k3 = int(t[1:])
                     if k3 < len(dq):
